@@ -1,6 +1,7 @@
 """C16: what a container start registers on the host is removed when it finishes.
 See DESIGN.md section 6 (C16), specs/node/NetReg.tla, harness/netreg_driver.py."""
 import collections
+import concurrent.futures
 import json
 import random
 
@@ -10,6 +11,7 @@ from .. import owners_driver as od
 from .c14 import _tmp_env, _tmp_env_done
 
 RULE = ('a history counts when a container whose start was observed to add at least one rule file, '
+        # (among them: finishes that are the retry of an aborted attempt, counted in exercised.retried)
         'endpoint spec or ip-set member is finished (so C16.clean has something to demand); '
         'distinct = distinct (manifests, interleaving) histories')
 
@@ -25,6 +27,9 @@ ASSUMPTIONS = [
     'FIXME itself); newnet, firewall plugin, conntrack, rrd, log archiving are stubbed',
     'ip-set members are attributed to the container whose start was observed to add them',
     'finish is run after a completed start (a start aborted half-way is not generated)',
+    'a finish attempt may be aborted once per container by an I/O style error raised by its k-th side-effecting call '
+    '(ipset command, unlink of a rule file or endpoint spec, release of the network resource); the finish is then '
+    'run again, as the supervisor does',
 ]
 
 
@@ -39,34 +44,50 @@ def _spaces(containers, thorough):
 
 
 def _mc(ctx):
-    runs = [(['c1', 'c2'], False, 2)] if ctx.quick else [(['c1', 'c2'], True, 2), (['c1', 'c2', 'c3'], False, 1)]
+    # (containers, big manifest space, finish<=, aborted attempts per container, thinning)
+    if ctx.quick:
+        runs = [(['c1', 'c2'], False, 2, 0, 1), (['c1', 'c2'], False, 2, 1, 2)]
+    else:
+        runs = [(['c1', 'c2'], True, 2, 0, 1), (['c1', 'c2'], False, 2, 1, 1),
+                (['c1', 'c2', 'c3'], False, 1, 1, 10)]
+
+    def one(run):
+        containers, big, maxfin, fail, thin = run
+        sp = {c: v[::thin] for c, v in _spaces(containers, big).items()}
+        mod, cfg, files = nd.mc_files(containers, sp, max_finish=maxfin, max_fail=fail,
+                                      tag='_%d_%d%d' % (len(containers), fail, thin))
+        return run, sp, tlc.mc(nd.SPEC_DIR, mod, cfg, extra_files=files, workers=8, heap='6g',
+                               coverage=False, timeout=150 if ctx.quick else 800)
     cex = []
-    for containers, big, maxfin in runs:
-        sp = _spaces(containers, big)
-        if len(containers) == 3:       # three containers: a thinner manifest space
-            sp = {c: v[::7] for c, v in sp.items()}
-        mod, cfg, files = nd.mc_files(containers, sp, max_finish=maxfin, tag='_%d' % len(containers))
-        res = tlc.mc(nd.SPEC_DIR, mod, cfg, extra_files=files, workers=16, heap='8g', coverage=False,
-                     timeout=150 if ctx.quick else 800)
-        ctx.add_mc('NetReg %d containers, %s manifests each, finish<=%d' % (
-            len(containers), '/'.join(str(len(sp[c])) for c in containers), maxfin), res)
-        if res['timed_out'] and ctx.quick:
-            raise tlc.MachineryError('model checking of NetReg did not finish')
-        if res['violated']:
-            ctx.log('model invariant %s violated; counterexample is replayed on the code' % res['violated'])
-            labels = [(a, tlc.tlaval.split_args(b)) for a, b in res['cex'] if a not in ('Initial', 'Next')]
-            cex.append(nd.history_of(labels))
+    with concurrent.futures.ThreadPoolExecutor(len(runs)) as ex:
+        for (containers, _big, maxfin, fail, _thin), sp, res in ex.map(one, runs):
+            ctx.add_mc('NetReg %d containers, %s manifests each, finish<=%d, aborted attempts<=%d' % (
+                len(containers), '/'.join(str(len(sp[c])) for c in containers), maxfin, fail), res)
+            if res['timed_out'] and ctx.quick:
+                raise tlc.MachineryError('model checking of NetReg did not finish')
+            if res['violated']:
+                ctx.log('model invariant %s violated; counterexample is replayed on the code' % res['violated'])
+                labels = [(a, tlc.tlaval.split_args(b)) for a, b in res['cex'] if a not in ('Initial', 'Next')]
+                cex.append(nd.history_of(labels))
     return cex
 
 
 def _gen(ctx):
-    n_tlc = 150 if ctx.quick else 1500
-    n_rnd = 350 if ctx.quick else 5000
+    n_tlc = 90 if ctx.quick else 1200
+    n_rnd = 280 if ctx.quick else 4000
     out = []
-    for k, containers in enumerate([['c1', 'c2'], ['c1', 'c2', 'c3']]):
-        mod, cfg, files = nd.mc_files(containers, _spaces(containers, True), tag='_gen%d' % k,
+    # TLC writes only behaviours that reach -depth: without faults a complete behaviour has
+    # 3 events per container, with one aborted finish attempt per container 4 (a container on
+    # the shared network has no attempt that could be aborted, so those appear only in the first two)
+    for k, (containers, fail) in enumerate([(['c1', 'c2'], 0), (['c1', 'c2', 'c3'], 0),
+                                            (['c1', 'c2'], 1)]):
+        sp = _spaces(containers, True)
+        if fail:
+            sp = {c: [r for r in v if not r['shared']] for c, v in sp.items()}
+        mod, cfg, files = nd.mc_files(containers, sp, max_fail=fail, tag='_gen%d' % k,
                                       invariants=())
-        behaviours, cmd = tlc.simulate(nd.SPEC_DIR, mod, cfg, num=n_tlc, depth=3 * len(containers) + 1,
+        behaviours, cmd = tlc.simulate(nd.SPEC_DIR, mod, cfg, num=n_tlc,
+                                       depth=(3 + fail) * len(containers) + 1,
                                        seed=ctx.seed * 31 + k, procs=4 if ctx.quick else 10,
                                        extra_files=files, timeout=100 if ctx.quick else 600)
         ctx.cmds.append(cmd)
@@ -77,6 +98,11 @@ def _gen(ctx):
     rng = random.Random(ctx.seed * 7919 + 16)
     for _ in range(n_rnd):
         out.append(('rnd', nd.gen_random(rng)))
+    if not ctx.quick:
+        # every k: the failing call walks through the whole finish of each container
+        for _ in range(25):
+            for h in nd.every_fault(nd.gen_random(rng, fail=0)):
+                out.append(('allk', h))
     return out
 
 
@@ -93,6 +119,8 @@ def _record(ctx, hist):
 def _show(step):
     if step[0] == 'Finish':
         return 'Finish(%s)' % step[1]
+    if step[0] == 'FinishFail':
+        return 'FinishFail(%s, call %s raises)' % (step[1], step[2])
     r = step[2]
     return 'Start(%s, app=%s eps=[%s] eph=%d/%d pass=%s vring=%s shared=%s)' % (
         step[1], r['app'], ' '.join('%s/%s:%s%s' % (e['name'], e['proto'], e['port'], '!' if e['infra'] else '')
